@@ -175,7 +175,7 @@ def run_driver(requests, main='Driver/Main.lean', timeout=3000):
                        input=inp, capture_output=True, text=True, timeout=timeout)
     if p.returncode != 0:
         raise LeanError('driver failed: ' + p.stderr[-3000:] + p.stdout[-1000:])
-    lines = [l for l in p.stdout.splitlines() if l.strip()]
+    lines = [l for l in p.stdout.split('\n') if l.strip()]
     if len(lines) != len(requests):
         raise LeanError(f'driver returned {len(lines)} lines for {len(requests)} requests')
     return [json.loads(l) for l in lines]
